@@ -487,6 +487,10 @@ func DefaultExternals() map[string]externalFn {
 			}
 			return symInt{fr.i.freshVar("env:time.Sub", 64, "env"), types.Int64}
 		},
+		// the process environment is empty
+		"syscall.runtime_envs": func(fr *frame, args []value) value { return []value(nil) },
+		"internal/godebug.setUpdate": nop, "internal/godebug.registerMetric": nop, "internal/godebug.setNewIncNonDefault": nop,
+		"syscall.Getrlimit":    func(fr *frame, args []value) value { return fr.i.newError("getrlimit: not available under symbolic execution") },
 		"(*time.Location).get": func(fr *frame, args []value) value { return args[0] },
 		"time.NewTimer":        func(fr *frame, args []value) value { return fr.i.newTimer(fr.fn, "Timer") },
 		"time.NewTicker":       func(fr *frame, args []value) value { return fr.i.newTimer(fr.fn, "Ticker") },
@@ -847,6 +851,36 @@ func addAtomics(m map[string]externalFn) {
 		m["sync/atomic.Add"+t] = addFn
 		m["sync/atomic.Swap"+t] = swapFn
 		m["sync/atomic.CompareAndSwap"+t] = casFn
+	}
+	// sync/atomic.Value: the real implementation type-puns interface words through unsafe.Pointer
+	avKey := func(v value) *value {
+		p, _ := v.(*value)
+		if p == nil {
+			panic(nilDeref())
+		}
+		return p
+	}
+	m["(*sync/atomic.Value).Load"] = func(fr *frame, args []value) value {
+		if v, ok := fr.i.atomicValues[avKey(args[0])]; ok {
+			return v
+		}
+		return iface{}
+	}
+	m["(*sync/atomic.Value).Store"] = func(fr *frame, args []value) value {
+		if x, ok := args[1].(iface); ok && x.t == nil {
+			panic(targetPanic{"sync/atomic: store of nil value into Value"})
+		}
+		fr.i.atomicValues[avKey(args[0])] = args[1]
+		return nil
+	}
+	m["(*sync/atomic.Value).Swap"] = func(fr *frame, args []value) value {
+		k := avKey(args[0])
+		old, ok := fr.i.atomicValues[k]
+		fr.i.atomicValues[k] = args[1]
+		if !ok {
+			return iface{}
+		}
+		return old
 	}
 	m["sync/atomic.LoadPointer"] = loadFn
 	m["sync/atomic.StorePointer"] = storeFn
